@@ -298,6 +298,54 @@ def wrong_arity_calls():
     return out
 
 
+def dup_inputs_one_line(kind):
+    """two different inputs of one name created by ONE source line (a comprehension, a helper called twice)"""
+    d = prog([inp("v1", "vote", SI), inp("v2", "vote", SI), {"k": "bin", "x": "r", "op": "OMul", "a": "v1", "b": "v2"}],
+             [("o1", "P0", "v1"), ("o2", "P0", "v2"), ("o", "P0", "r")], ["dup-input", "one-source-line", kind, "must-reject"])
+    head = "from nada_dsl import *\n\n\ndef nada_main():\n    party_P0 = Party(name='P0')\n"
+    if kind == "comprehension":
+        d["text"] = (head + "    vs = [SecretInteger(Input(name='vote', party=party_P0)) for _ in range(2)]\n"
+                     "    v1 = vs[0]\n    v2 = vs[1]\n    r = v1 * v2\n    return [Output(v1, 'o1', party_P0), Output(v2, 'o2', party_P0), Output(r, 'o', party_P0)]\n")
+    else:
+        d["text"] = (head + "    def secret(name):\n        return SecretInteger(Input(name=name, party=party_P0))\n"
+                     "    v1 = secret('vote')\n    v2 = secret('vote')\n    r = v1 * v2\n    return [Output(v1, 'o1', party_P0), Output(v2, 'o2', party_P0), Output(r, 'o', party_P0)]\n")
+    return d
+
+
+def matrix_params_two_element_types():
+    """two nada functions whose parameters are arrays of arrays with different innermost element types"""
+    PI = S("Public", "Int")
+    f1 = {"k": "def", "f": "first_s", "params": [("m", ("arr", ("arr", SI, None), None))], "ret": SI, "body": [inp("q1", "q1", SI)], "res": "q1", "form": "decorator"}
+    f2 = {"k": "def", "f": "first_p", "params": [("w", ("arr", ("arr", PI, None), None))], "ret": SI, "body": [inp("q2", "q2", SI)], "res": "q2", "form": "decorator"}
+    return prog([inp("ms", "ms", ("arr", ("arr", SI, 2), 3)), inp("mp", "mp", ("arr", ("arr", PI, 2), 3)), f1, f2,
+                 {"k": "call", "x": "r1", "f": "first_s", "args": ["ms"], "kwargs": []},
+                 {"k": "call", "x": "r2", "f": "first_p", "args": ["mp"], "kwargs": []},
+                 {"k": "bin", "x": "r", "op": "OAdd", "a": "r1", "b": "r2"}],
+                [("o", "P0", "r")], ["matrix-params", "array-param"])
+
+
+def declassifying_function_mapped():
+    """a function that reveals in its body, mapped and reduced over secret arrays: the results have the function's (public) type"""
+    PI = S("Public", "Int")
+    rev = {"k": "def", "f": "reveal", "params": [("x", SI)], "ret": PI, "body": [{"k": "topublic", "x": "p", "a": "x"}], "res": "p", "form": "decorator"}
+    addp = {"k": "def", "f": "addp", "params": [("acc", PI), ("x", SI)], "ret": PI,
+            "body": [{"k": "topublic", "x": "p", "a": "x"}, {"k": "bin", "x": "t", "op": "OAdd", "a": "acc", "b": "p"}], "res": "t", "form": "decorator"}
+    return prog([inp("xs", "xs", ("arr", SI, 3)), inp("z", "z", PI), rev, addp,
+                 {"k": "map", "x": "m", "a": "xs", "f": "reveal"}, {"k": "reduce", "x": "r", "a": "xs", "f": "addp", "init": "z"}],
+                [("o1", "P0", "m"), ("o2", "P0", "r")], ["declassifying-function-mapped"])
+
+
+def row_function_over_two_matrices():
+    """one row function (unsized array parameter) mapped over matrices with rows of different sizes"""
+    inc = {"k": "def", "f": "inc", "params": [("e", SI)], "ret": SI, "body": [{"k": "bin", "x": "s", "op": "OAdd", "a": "e", "b": "e"}], "res": "s", "form": "decorator"}
+    add = {"k": "def", "f": "add", "params": [("acc", SI), ("e", SI)], "ret": SI, "body": [{"k": "bin", "x": "s", "op": "OAdd", "a": "acc", "b": "e"}], "res": "s", "form": "decorator"}
+    row = {"k": "def", "f": "row_total", "params": [("row", ("arr", SI, None))], "ret": SI,
+           "body": [{"k": "map", "x": "d", "a": "row", "f": "inc"}, {"k": "reduce", "x": "t", "a": "d", "f": "add", "init": "zero"}], "res": "t", "form": "decorator"}
+    return prog([inp("zero", "zero", SI), inp("m1", "m1", ("arr", ("arr", SI, 4), 3)), inp("m2", "m2", ("arr", ("arr", SI, 6), 2)), inc, add, row,
+                 {"k": "map", "x": "t1", "a": "m1", "f": "row_total"}, {"k": "map", "x": "t2", "a": "m2", "f": "row_total"}],
+                [("o1", "P0", "t1"), ("o2", "P0", "t2")], ["row-function-two-matrices", "array-param"])
+
+
 def objects_same_fields_other_order():
     """two objects (and two n-tuples) with the same field names and types written in different orders, mixed secrecy"""
     PI = S("Public", "Int")
@@ -420,4 +468,5 @@ def all_families():
             inner_public_secret(), inner_int_uint(), untruthful_annotation(), secret_flows(), signatures(), output_of_function(),
             dup_inputs("same-party"), dup_inputs("same-party-diff-type"), dup_inputs("diff-party"), dup_inputs("diff-party-one-dead"),
             dup_inputs("same-party-one-dead"), literal_array_inner(), object_key_order(), literal_divisions(),
-            closure_factory(), kwargs_reordered(), unzip_compound(), reduce_public_seed(), rebound_closure_variable(), explicit_types_reordered(), objects_same_fields_other_order()] + rejected_functions() + wrong_arity_calls()
+            closure_factory(), kwargs_reordered(), unzip_compound(), reduce_public_seed(), rebound_closure_variable(), explicit_types_reordered(), objects_same_fields_other_order(), dup_inputs_one_line('comprehension'), dup_inputs_one_line('helper'), matrix_params_two_element_types(),
+            declassifying_function_mapped(), row_function_over_two_matrices()] + rejected_functions() + wrong_arity_calls()
